@@ -629,10 +629,6 @@ Fixpoint load_imports (W : world) (o : bopts) (st : bstate) (imps : list (spec *
   | (_, ds) :: rest => load_imports W o (load_import_deps W o st ds) rest
   end.
 
-Definition build_fuel (W : world) : nat :=
-  (* generous: every specifier can be (re)loaded once per redirect count and twice for assets *)
-  (8 + 4 * (length (w_resp W) + 4) * (w_max_redirects W + 3))%nat.
-
 Definition init_state (W : world) (o : bopts) (g : bgraph) : bstate :=
   {| st_slots := bg_slots g; st_redirects := bg_redirects g; st_has_node := bg_has_node g;
      st_pending := []; st_dyn := []; st_deferred := [];
@@ -654,7 +650,8 @@ Definition build (W : world) (o : bopts) (g : bgraph) (roots : list spec) (impor
   let new_imports := filter (fun p => negb (has_key (fst p) (bg_imports g))) imports in
   let st1 := load_roots W o (init_state W o g) new_roots in
   let st2 := load_imports W o st1 new_imports in
-  match resolve_pending (build_fuel W) W o st2 with
+  (* the loop runs on fuel computed from the termination measure: Proofs/Termination.v proves it never runs out *)
+  match resolve_pending (term_fuel W st2) W o st2 with
   | None => None
   | Some st => Some (finish W g (bg_roots g ++ new_roots) (bg_imports g ++ new_imports) st)
   end.
@@ -672,7 +669,7 @@ Fixpoint reload_specs (W : world) (o : bopts) (st : bstate) (specs : list spec) 
 Definition reload (W : world) (o : bopts) (g : bgraph) (specs : list spec) : option bgraph :=
   let resolved := map (resolve (redirect_graph (bg_redirects g))) specs in
   let st1 := reload_specs W o (init_state W o g) resolved in
-  match resolve_pending (build_fuel W) W o st1 with
+  match resolve_pending (term_fuel W st1) W o st1 with
   | None => None
   | Some st => Some (finish W g (bg_roots g) (bg_imports g) st)
   end.
